@@ -20,6 +20,7 @@ from pyvc.unit import unit
 from pyvc import core
 
 LEVEL = "other"
+STANDIN_ALWAYS_THOROUGH = True      # its large bound takes seconds: used at both tiers
 EXPLANATION = ("MIXED. Deductive part: finite case analysis of the real parse_command_line (all sequences of <= 2 arguments over 17 shapes, 307 sequences) and of _Option.parse / set (type x "
                "multiple x callback) against a reference written from the statement. The universal part over values and textual forms is BOUNDED: a seeded generator of option definitions x "
                "values x textual forms x three routes (command line, config text, config value).")
